@@ -179,8 +179,12 @@ def match_item(x, it):
         # maps and arrays: signature function(xs:anyAtomicType) as item()* / function(xs:integer) as item()*
         if len(params) != 1:
             return False
+        if xk == 'r' and ret != ITEM_STAR:
+            # 2.5.6.2 rule 32: array(X) is a subtype of function(xs:integer) as X, and an array matches array(X)
+            # when every MEMBER (a sequence) matches X: the members themselves, not their flattened items
+            return and3([subtype(params[0], atomic('integer'))] + [match_seq(m, ret) for m in x[1]])
         if ret != ITEM_STAR:
-            return None     # the 3.1 text is not self-consistent here (2.5.5.8 vs subtype rule for V?)
+            return None     # maps: the 3.1 text is not self-consistent here (2.5.5.8 vs subtype rule for V?)
         key = atomic('anyAtomicType') if xk == 'm' else atomic('integer')
         return subtype(params[0], key)
     if k == 'map':
